@@ -101,3 +101,27 @@ pub proof fn lemma_wds_keys_step(s: Seq<(RewardAddress, (Coin, Option<ScriptWitn
     requires 0 <= i < s.len()
     ensures wds_keys(s.take(i + 1)) == wds_keys(s.take(i)) + cred_key(s[i].0.cred()) + opt_wit_keys(s[i].1.1)
 { assert(s.take(i + 1).drop_last() =~= s.take(i)); }
+
+/// votes: a key voter (committee hot key, DRep key, pool key) signs; a script voter brings the signers its witness declares
+pub open spec fn voter_key(v: Voter) -> Option<Ed25519KeyHash> {
+    match v.0 {
+        VoterEnum::ConstitutionalCommitteeHotCred(c) => match c.0 { CredType::Key(h) => Some(h), CredType::Script(_) => None },
+        VoterEnum::DRep(c) => match c.0 { CredType::Key(h) => Some(h), CredType::Script(_) => None },
+        VoterEnum::StakingPool(h) => Some(h),
+    }
+}
+pub open spec fn votes_keys(s: Seq<(Voter, VoterVotes)>) -> Set<Rc<Ed25519KeyHash>> decreases s.len() {
+    if s.len() == 0 { Set::empty() } else {
+        votes_keys(s.drop_last()) + (match voter_key(s.last().0) { Some(h) => kset(h), None => Set::empty() }) + opt_wit_keys(s.last().1.script_witness)
+    }
+}
+pub proof fn lemma_votes_keys_step(s: Seq<(Voter, VoterVotes)>, i: int)
+    requires 0 <= i < s.len()
+    ensures votes_keys(s.take(i + 1)) == votes_keys(s.take(i)) + (match voter_key(s[i].0) { Some(h) => kset(h), None => Set::empty() }) + opt_wit_keys(s[i].1.script_witness)
+{ assert(s.take(i + 1).drop_last() =~= s.take(i)); }
+pub open spec fn votes_refs(s: Seq<(Voter, VoterVotes)>) -> Seq<TransactionInput> decreases s.len() {
+    if s.len() == 0 { Seq::empty() } else { votes_refs(s.drop_last()) + wit_refs(s.last().1.script_witness) }
+}
+pub proof fn lemma_votes_refs_step(s: Seq<(Voter, VoterVotes)>, i: int)
+    requires 0 <= i < s.len() ensures votes_refs(s.take(i + 1)) == votes_refs(s.take(i)) + wit_refs(s[i].1.script_witness)
+{ assert(s.take(i + 1).drop_last() =~= s.take(i)); }
